@@ -195,6 +195,7 @@ func TestC13(t *testing.T) {
 					return
 				}
 				beginCase("C13", kind, func() any { return c })
+				defer endCase() // also when rapid abandons the case half-way (fuzzing: input used up)
 				v := checkResetCase(c)
 				endCase()
 				if v.bad {
@@ -422,6 +423,7 @@ func TestC13Wrap(t *testing.T) {
 				c.Pre = genWrapPre(t, rapid.Bool().Draw(t, "preFaults"))
 				pre := c.Pre.R.Data
 				beginCase("C13", "wrap-"+kind, func() any { return c })
+				defer endCase() // also when rapid abandons the case half-way (fuzzing: input used up)
 				msg, bad, x, err := checkWrapReset(c)
 				endCase()
 				if err != nil {
